@@ -130,7 +130,8 @@ def run(prop_id: str, tier: str, seed: int, replay=None, jobs=None) -> int:
         first = None
         for v in kept.get(mech, [])[:3]:
             rdir.mkdir(parents=True, exist_ok=True)
-            path = rdir / f"{mech}-{env.case_hash(v['case'])}.json"
+            safe = "".join(c if c.isalnum() or c in "-_" else "_" for c in mech)
+            path = rdir / f"{safe}-{env.case_hash(v['case'])}.json"
             path.write_text(json.dumps(
                 {"property": prop_id, "tier": tier, "seed": seed, "mechanism": mech,
                  "summary": v["summary"], "detail": v["detail"], "case": v["case"]},
